@@ -25,11 +25,15 @@ StoreR ==
 StoreOne == \E a \in R(Addrs), k \in R(Keys) : Store(<< <<E(a, <<k>>)>> >>)
 
 Lo == IF Base >= 2 THEN Base - 2 ELSE 0
+(* an unconstrained filter makes every block a candidate: with a scan limit the pages would crawl
+   through the whole base image, so such queries start just below the modelled blocks *)
+Froms(f, l) == IF IsMatchAll(f) /\ l > 0 THEN Lo..(Height + 1) ELSE {0} \cup (Lo..(Height + 1))
 QueryFull ==
-  \E f \in R(FiltersAll), c \in R(Chunks), l \in R(Limits) : Query(f, 0, Height, c, l)
+  \E f \in R(FiltersAll), c \in R(Chunks), l \in R(Limits) :
+     Query(f, IF IsMatchAll(f) /\ l > 0 THEN Lo ELSE 0, Height, c, l)
 QueryAny ==
-  \E f \in R(FiltersAll), from \in R({0} \cup (Lo..(Height + 1))), to \in R(Lo..(Height + 2)),
-     c \in R(Chunks), l \in R(Limits) : Query(f, from, to, c, l)
+  \E f \in R(FiltersAll), c \in R(Chunks), l \in R(Limits) :
+     \E from \in R(Froms(f, l)), to \in R(Lo..(Height + 2)) : Query(f, from, to, c, l)
 QueryAtom ==   \* a single-atom filter over everything: the sharpest probe for a stale column
   \E f \in R({F({a}, <<>>) : a \in Addrs} \cup {F({}, <<{k}>>) : k \in Keys}
              \cup {F({}, <<{}, {k}>>) : k \in Keys}), l \in R(Limits) : Query(f, 0, Height + 1, 100, l)
